@@ -21,6 +21,8 @@ type Check struct {
 	// ShardByScenario gives whole scenarios to workers (many small scenarios) instead of splitting
 	// each scenario's level-1 alternatives.
 	ShardByScenario bool
+	// ScenariosSharded, when set together with ShardByScenario, builds only the scenarios of one shard.
+	ScenariosSharded func(tier string, shard, shards int) []*h.Scenario
 	Nontrivial func(hh *h.Hist) []string
 	// Grid part (Explorer G): enumerates its shard of the grid and feeds the collector.
 	Grid func(t *testing.T, tier string, shard, shards int, c *h.Collector)
